@@ -254,7 +254,7 @@ pub fn run() -> Report {
 /// "... a function of the data directory and the options only": the same directory and options named in different ways and
 /// run in different process environments. Full product callback (5) x range {whole, -s 1 -e 2} x --verify {off, on} x path
 /// form (absolute / relative / trailing slash / dot components / symbolic links / cwd inside the data directory) x environment
-/// (plain, RAYON_NUM_THREADS unset, a non-English UTF-8 locale with TZ set, logging-related variables, five other hash seeds (iteration order of the std hash maps), directory listings served in reversed / rotated order). The chain contains addresses whose totals exceed 2^53 and consist of one large and seven unit outputs.
+/// (plain, RAYON_NUM_THREADS unset, a non-English UTF-8 locale with TZ set, logging-related variables, a virtual monotonic clock advancing 4 s / 11 s / 0 s per query, five other hash seeds (iteration order of the std hash maps), directory listings served in reversed / rotated order). The chain contains addresses whose totals exceed 2^53 and consist of one large and seven unit outputs.
 /// Compared with the absolute-path plain-environment run: exit status, every file of the dump folder, and the
 /// simplestats / opreturn output (log lines that print a path are dropped).
 fn invocation_forms(rep: &mut Report, root: &std::path::Path) {
@@ -279,7 +279,7 @@ fn invocation_forms(rep: &mut Report, root: &std::path::Path) {
     let essential = |r: &RunResult| -> serde_json::Value {
         // observe() sorts the "Transaction Types" entries (their order is that of a hash map and explicitly unspecified)
         let canonical = refmodel::run::observe(r, std::path::Path::new("/nonexistent-root"))["stdout"].as_str().unwrap_or("").to_string();
-        let lines: Vec<String> = canonical.lines().filter(|l| !(l.contains("Reading index from") || l.contains("Reading files from") || l.contains("with dump folder") || l.contains("blockchain dir") || l.contains("Starting rusty-blockparser"))).map(|l| l.to_string()).collect();
+        let lines: Vec<String> = canonical.lines().filter(|l| !(l.contains("Reading index from") || l.contains("Reading files from") || l.contains("with dump folder") || l.contains("blockchain dir") || l.contains("Starting rusty-blockparser") || l.contains("Status: "))).map(|l| l.to_string()).collect();
         let files: BTreeMap<String, String> = r.files.iter().map(|(k, v)| (k.clone(), refmodel::ser::hex(&refmodel::hash::sha256(&canon(k, v))))).collect();
         json!({"exit": r.code, "signal": r.signal, "files": files, "stdout": lines})
     };
@@ -288,6 +288,9 @@ fn invocation_forms(rep: &mut Report, root: &std::path::Path) {
         ("RAYON_NUM_THREADS unset", vec![], 0),
         ("tr_TR locale, TZ", vec![("LC_ALL", "tr_TR.UTF-8"), ("LANG", "tr_TR.UTF-8"), ("TZ", "Pacific/Kiritimati")], 2),
         ("RUST_LOG and COLUMNS set", vec![("RUST_LOG", "trace"), ("COLUMNS", "20"), ("NO_COLOR", "1"), ("TERM", "dumb")], 2),
+        ("virtual clock: 4 s per query", vec![("VERIF_CLOCK_STEP", "4000000000")], 2),
+        ("virtual clock: 11 s per query", vec![("VERIF_CLOCK_STEP", "11000000000")], 2),
+        ("virtual clock: standing still", vec![("VERIF_CLOCK_STEP", "0")], 2),
         ("hash seed 2", vec![("VERIF_DETRAND", "2")], 2),
         ("hash seed 6", vec![("VERIF_DETRAND", "6")], 2),
         ("hash seed 9", vec![("VERIF_DETRAND", "9")], 2),
@@ -377,7 +380,15 @@ fn conformance(rep: &mut Report, root: &std::path::Path) {
         }
         cb.push(txs);
     }
-    let world = World::simple(btc, &cb.blocks, 0);
+    {
+        // scripts far longer than any per-read work-splitting threshold, with lengths that no thread count divides evenly
+        let h = cb.next_height();
+        let outs: Vec<refmodel::ser::TxOut> = [4099usize, 5001, 6002, 9999, 8192, 33_001].iter().map(|n| refmodel::ser::TxOut { value: 1, script: (0..*n).map(|i| if i == 0 { 0x6a } else { (i % 251) as u8 }).collect() }).collect();
+        cb.push_raw(vec![coinbase(h, 1, vec![pay(1, 50 * COIN_VALUE)]), Tx { version: 1, segwit: false, inputs: vec![TxIn::spend([0xec; 32], 1)], outputs: outs, locktime: 0, wide: 0 }]);
+    }
+    // the directory is obfuscated: whatever de-obfuscation does per read must not depend on the number of workers either
+    let mut world = World::simple(btc, &cb.blocks, 0);
+    world.xor_key = Some(vec![0x3d, 0x9a, 0x00, 0xc7, 0x51, 0xee, 0x08, 0xb2]);
     let all = cb.mblocks();
     let tip = all.len() as u64 - 1;
     let mut cases = Vec::new();
